@@ -89,7 +89,7 @@ def shard_seed(seed, k):
 
 
 def merge(frags):
-    ev = dict(evaluations=0, nt=set(), classes={}, samples=[], kf_seen={}, kf_what={}, excluded={}, extra={})
+    ev = dict(evaluations=0, ntcount=0, nt=set(), classes={}, samples=[], kf_seen={}, kf_what={}, excluded={}, extra={})
     for f in frags:
         try:
             d = json.load(open(f))
@@ -97,6 +97,7 @@ def merge(frags):
             continue
         ev["evaluations"] += d.get("evaluations", 0)
         ev["nt"].update(d.get("nontrivial_hashes") or [])
+        ev["ntcount"] += d.get("nontrivial_count", 0)
         for k, v in (d.get("classes") or {}).items():
             ev["classes"][k] = ev["classes"].get(k, 0) + v
         for k, v in (d.get("kf_seen") or {}).items():
@@ -116,7 +117,7 @@ def merge(frags):
 def write_evidence(pid, cfg, tier, seed, ev, wall, nviol, shards, notes):
     cov = dict(
         evaluations=int(ev["evaluations"]),
-        distinct_nontrivial=len(ev["nt"]),
+        distinct_nontrivial=len(ev["nt"]) + int(ev["ntcount"]),
         rule=cfg["rule"],
         samples=ev["samples"],
         classes=ev["classes"],
@@ -171,7 +172,9 @@ def run_check(pid, tier, seed, replay=None):
             env.update(VERIF_OUT=fragdir, VERIF_TIER=tier, VERIF_SHARD=str(k), VERIF_NSHARDS=str(shards),
                        VERIF_BIN=work, VERIF_SEED=str(seed), VERIF_KF=os.path.join(HERE, "known_findings.json"),
                        VERIF_SCRATCH=os.path.join(work, "s%d" % k, "data"), VERIF_REPO=REPO,
-                       VERIF_HARNESS=hdir)
+                       VERIF_HARNESS=hdir, VERIF_REPLAY_OUT=os.path.join(sd, "replays"))
+            if replay and not replay.endswith(".fail"):
+                env["VERIF_REPLAY"] = os.path.abspath(replay)
             env.update({k2: str(v) for k2, v in (cfg.get("env") or {}).items()})
             env.update({k2: str(v) for k2, v in (tcfg.get("env") or {}).items()})
             os.makedirs(env["VERIF_SCRATCH"])
@@ -179,7 +182,7 @@ def run_check(pid, tier, seed, replay=None):
                     "-test.count=1", "-rapid.checks=%d" % checks]
             if steps:
                 args.append("-rapid.steps=%d" % steps)
-            if replay:
+            if replay and replay.endswith(".fail"):
                 args.append("-rapid.failfile=" + os.path.abspath(replay))
             else:
                 args.append("-rapid.seed=%d" % shard_seed(seed, k))
@@ -210,9 +213,13 @@ def run_check(pid, tier, seed, replay=None):
                 os.makedirs(rdir, exist_ok=True)
                 base = os.path.join(rdir, "%s-seed%s-shard%d" % (tier, seed, k))
                 open(base + ".log", "w").write(log[-200000:])
+                own = glob.glob(os.path.join(sd, "replays", "*.json"))
                 if fails and not replay:
                     shutil.copy(fails[0], base + ".fail")
                     viols.append(base + ".fail")
+                elif own and not replay:
+                    shutil.copy(own[0], base + ".json")
+                    viols.append(base + ".json")
                 else:
                     viols.append(replay if replay else base + ".log")
             else:
@@ -227,13 +234,13 @@ def run_check(pid, tier, seed, replay=None):
             what = kf.get(kid, {}).get("what_fails") or ev["kf_what"].get(kid, "")
             print("KNOWN-FINDING: property=%s %s %s (observed %d times in this run)" % (pid, kid, what, n))
         print("%s %s: evaluations=%d distinct_nontrivial=%d wall=%.1fs shards=%d" %
-              (pid, tier, ev["evaluations"], len(ev["nt"]), wall, shards))
+              (pid, tier, ev["evaluations"], len(ev["nt"]) + ev["ntcount"], wall, shards))
         if viols:
             for v in viols[:5]:
                 print("VIOLATION property=%s replay=%s" % (pid, v))
             # show the head of the first failure for the reader
             try:
-                log = open(viols[0][:-5] + ".log" if viols[0].endswith(".fail") else viols[0]).read()
+                log = open(os.path.splitext(viols[0])[0] + ".log").read()
                 print(log[-3000:])
             except Exception:
                 pass
@@ -244,7 +251,7 @@ def run_check(pid, tier, seed, replay=None):
             if timed_out:
                 print("INCONCLUSIVE: time budget hit")
             rc = 2
-        elif not replay and len(ev["nt"]) < 2:
+        elif not replay and len(ev["nt"]) + ev["ntcount"] < 2:
             print("INCONCLUSIVE: fewer than 2 non-trivial cases were generated")
             rc = 2
         else:
